@@ -204,7 +204,7 @@ pub fn generate_c05(thorough: bool, seed: u64, part: (usize, usize), em: &mut Em
     if part.0 == 0 {
         for jrefuse in 1..=3u8 { for nla in &[false, true] {
             let cfg = crate::props::conn::Cfg { w: 800, h: 600, lay: 0x409, name: "rdp-rs".into(), dom: "d".into(), user: "u".into(), pw: "p".into(), hash: false, ra: false, blank: false, auto: false, nla: *nla, check: false };
-            let srv = crate::props::conn::SrvCfg { sel: 0, id: 1, uid: 1004, version: 0x80004, license_new: false, share: 0x103ea, caps: crate::props::conn::default_caps(), source: vec![], chal_flags: 0x62898235, inputs: vec![], script: vec![], reactivate: None, reuse: 0, jrefuse };
+            let srv = crate::props::conn::SrvCfg { sel: 0, id: 1, uid: 1004, version: 0x80004, license_new: false, share: 0x103ea, caps: crate::props::conn::default_caps(), source: vec![], chal_flags: 0x62898235, inputs: vec![], script: vec![], reactivate: None, reuse: 0, jrefuse, ber: 0 };
             let _ = crate::props::conn::emit(em, &cfg, &srv);
         } }
     }
